@@ -318,7 +318,18 @@ func runCheck(prop string, o checkOpts) *checkResult {
 	return res
 }
 
-var extraChecks = map[string]func(P *Program, res *checkResult, o checkOpts){}
+var extraChecks = map[string]func(P *Program, res *checkResult, o checkOpts){
+	"C19": func(P *Program, res *checkResult, o checkOpts) {
+		for _, sp := range P.ssaPkgs {
+			if sp.Pkg.Name() != "dpt" {
+				continue
+			}
+			if g, ok := sp.Members["dptTypes"].(*ssa.Global); ok {
+				res.groups = append(res.groups, groupObls(tableObligations(P, "C19", g))...)
+			}
+		}
+	},
+}
 
 func firstFailing(g *oblGroup) *Obligation {
 	for _, o := range g.obls {
